@@ -111,7 +111,13 @@ def push(cfg, crate, rep):
     # order of the two updates: the presence test must precede the insert
     if len(app) == 1 and len(ins) == 1:
         idx = [i for i, x in enumerate(m)]
-        first_ins = min(i for i, x in enumerate(m) if core(x[0]).r() == "self.entries")
+        # (only inserts that can happen on the appending path count: an insert in the exclusive "already present" case of
+        # a `match entries.entry(k)` is written first but never runs together with the append)
+        def _compat(x):
+            g = F.And(x[4], app[0][4])
+            return g is not False and bool(F.counterexamples(g, False, "implies"))
+        cands_ = [i for i, x in enumerate(m) if core(x[0]).r() == "self.entries" and _compat(x)]
+        first_ins = min(cands_) if cands_ else len(m)
         rep.ob("C20.push", key + "|test-before-insert", m.index(app[0]) < first_ins, "the absence test/append happens before the insert (afterwards the key is always present)")
 
 
@@ -144,6 +150,32 @@ def remove(cfg, crate, rep):
             keep = I2.to_formula(I2.call_closure(ClosureV(cl.node, fr), [Param("elem")]))
         want_keep = [Not(atom("eq", "elem", "ty")), Not(atom("eq", "ty", "elem"))]
         ok_k = keep is not None and any(not F.counterexamples(keep, w, "equiv") for w in want_keep)
+        if k.endswith("Vec::remove") and not ok_k:
+            # `if let Some(i) = self.order.iter().position(|x| x == &ty) { self.order.remove(i) }`: the first element equal to
+            # the key is dropped -- the only one, as push appends a key only while it is absent (C20.push).  The index
+            # must come from a *forward* search of `order` itself for the key, and the update happens exactly when the
+            # search succeeds.
+            from interp import Sel as _Sel, CallV as _CallV, Via as _Via, BoolV as _BoolV
+            ix = p[0]
+            while isinstance(ix, _Via):
+                ix = ix.inner
+            cv = core(ix.base) if isinstance(ix, _Sel) and ix.sel == "?" else None
+            if isinstance(cv, _CallV) and cv.callee.endswith(("Iterator::position", "Iterator>::position")) and len(cv.args) == 2 and core(cv.args[0]).r() in ("self.order.iter", "self.order"):
+                inner = cv.args[1].inner if isinstance(cv.args[1], _Via) else cv.args[1]
+                body = inner.f if isinstance(inner, _BoolV) else None
+                eqs = [atom("eq", el, "ty") for el in ("self.order.iter[]", "self.order[]")] + [atom("eq", "ty", el) for el in ("self.order.iter[]", "self.order[]")]
+                found_any = [a for a in F.atoms(c) if a[0] in ("any", "contains") and str(a[1]).startswith("self.order")]
+                if body is not None and any(not F.counterexamples(body, w, "equiv") for w in eqs) and len(found_any) == 1:
+                    keep = Not(atom("eq", "elem", "ty"))
+                    ok_k = True
+                    # the search's success is implied by presence (push invariant): read the condition without it
+                    import schema as _S
+                    c = _S.pe_formula(c, {found_any[0]: True})
+                    ok_c = not F.counterexamples(c, present, "equiv")
+                    if not ok_c:
+                        rets = [(cnd, val) for cnd, val in (core(out["value"]).alts if hasattr(core(out["value"]), "alts") else [])]
+                        absent_returns = [cnd for cnd, val in rets if I.concrete(val) is False]
+                        ok_c = c is True and len(absent_returns) == 1 and not F.counterexamples(absent_returns[0], F.Not(present), "equiv")
         rep.ob("C20.remove", key + "|order-loses-exactly-the-key", ok_c and ok_k, "`order` keeps exactly the elements different from the removed key, on exactly the paths where the key was present", expected="retain(|x| x != ty) when removed", found="%s keep(%s) when %s" % (k, F.show(keep) if keep is not None else "?", F.show(c)), sp=n.get("sp"))
     else:
         rep.fail("C20.remove", key + "|order-loses-exactly-the-key", "no single update of `order`", found=len(rt))
